@@ -5,7 +5,7 @@ CONSTANTS
   IdMax = 3
   Cap = 2
   CtlCap = 2
-  RMs = {1, 2}
+  RMs = {1, 2, 3}
   MaxIn = 0
   MaxFail = 0
   MaxQ0 = 0
